@@ -61,6 +61,25 @@ def inject(dst, names):
     return notes
 
 
+def run_group(cmd, cwd, env, timeout):
+    """subprocess.run with a process-group kill on timeout (cargo-kani leaves cbmc running otherwise)"""
+    import signal
+    p = subprocess.Popen(cmd, cwd=cwd, env=env, stdout=subprocess.PIPE, stderr=subprocess.PIPE, text=True, start_new_session=True)
+    try:
+        out, err = p.communicate(timeout=timeout)
+        return p.returncode, out, err, False
+    except subprocess.TimeoutExpired:
+        try:
+            os.killpg(p.pid, signal.SIGKILL)
+        except Exception:
+            pass
+        try:
+            out, err = p.communicate(timeout=10)
+        except Exception:
+            out, err = "", ""
+        return -9, out, err, True
+
+
 def parse_kani(out):
     res = {"checks": 0, "failed_checks": 0, "failures": [], "verdict": None, "covers": {}, "stubs": []}
     m = re.search(r"\*\* (\d+) of (\d+) failed", out)
@@ -87,11 +106,9 @@ def run_one(dst, nm, tier, unwind_is_violation=()):
            "--output-format", "regular"] + H.get("args", [])
     t0 = time.time()
     to = H.get("timeout", 900) * (2 if tier == "thorough" else 1)
-    try:
-        p = subprocess.run(cmd, cwd=dst, env=env, capture_output=True, text=True, timeout=to)
-        out = p.stdout + "\n" + p.stderr
-        rc = p.returncode
-    except subprocess.TimeoutExpired as e:
+    rc, o, e, timed_out = run_group(cmd, dst, env, to)
+    out = o + "\n" + e
+    if timed_out:
         return {"harness": nm, "status": "inconclusive", "why": f"timeout after {to}s", "wall_s": time.time() - t0,
                 "cmd": " ".join(cmd), "bound": H.get("bound", ""), "checks": 0}
     r = parse_kani(out)
@@ -131,8 +148,7 @@ def run_one(dst, nm, tier, unwind_is_violation=()):
     if r["status"] == "fail":
         # ask Kani for the counterexample as a concrete playback test (values of every kani::any() in order)
         try:
-            p2 = subprocess.run(cmd + ["-Z", "concrete-playback", "--concrete-playback=print"], cwd=dst, env=env, capture_output=True, text=True, timeout=min(to, 900))
-            o2 = p2.stdout
+            _rc2, o2, _e2, _t2 = run_group(cmd + ["-Z", "concrete-playback", "--concrete-playback=print"], dst, env, min(to, 900))
             k = o2.find("Concrete playback unit test")
             if k >= 0:
                 r["concrete"] = o2[k:k + 3000]
